@@ -28,12 +28,13 @@ def _worker(cases):
                 return "%s(%s->%s)" % (e["kind"], schemagamma.tsdl(e["from"]), schemagamma.tsdl(e["to"]))
             return e["kind"]
         label = "+".join(lab(e) for e in edits)
-        for order in ("same", "reversed"):
+        for order in ("same", "reversed", "old-reversed"):
             n += 1
             na = dict(new_a, types=list(reversed(new_a["types"]))) if order == "reversed" else new_a
+            oa = dict(old_a, types=list(reversed(old_a["types"]))) if order == "old-reversed" else old_a
             wit = {"edits": edits, "order": order}
             try:
-                old = schemagamma.realize(enum_py(old_a))
+                old = schemagamma.realize(enum_py(oa))
                 new = schemagamma.realize(enum_py(na))
                 changes = list(diff_schema(old, new))
             except Exception as e:
@@ -64,7 +65,7 @@ def _worker(cases):
                     except Exception:
                         pass
             # every reported change multiset is independent of the type order
-            if order == "reversed":
+            if order != "same":
                 try:
                     base = sorted((type(ch).__name__, str(ch.message)) for ch in diff_schema(old, schemagamma.realize(enum_py(new_a))))
                     if base != sorted((a, b) for a, b, _ in classes):
